@@ -273,6 +273,17 @@ func (e *Env) expr(x Expr) (*SVal, error) {
 			q = "exists"
 			body = and(append(guards, body)...)
 		}
+		if len(n.Triggers) > 0 {
+			var ts []string
+			for _, tr := range n.Triggers {
+				tv, err := ne.expr(tr)
+				if err != nil {
+					return nil, err
+				}
+				ts = append(ts, tv.T.S)
+			}
+			return &SVal{Term{fmt.Sprintf("(%s (%s) (! %s :pattern (%s)))", q, strings.Join(binds, " "), body.S, strings.Join(ts, " ")), SBool}, tyBool}, nil
+		}
 		var used []string
 		seenPat := map[string]bool{}
 		for _, p := range pats {
@@ -295,8 +306,19 @@ func (e *Env) expr(x Expr) (*SVal, error) {
 			return nil, err
 		}
 		ne := e.clone()
-		ne.vars[n.Name] = v
 		ne.bound = addBound(ne.bound, n.Name)
+		if len(v.T.S) > 48 && (v.T.Sort == SInt || v.T.Sort == SBool || v.T.Sort == SStr) {
+			// a real SMT let: the bound term is not duplicated at every use
+			letSeq++
+			nm := sym(fmt.Sprintf("l!%s!%d", n.Name, letSeq))
+			ne.vars[n.Name] = &SVal{Term{nm, v.T.Sort}, v.Ty}
+			b, err := ne.expr(n.Body)
+			if err != nil {
+				return nil, err
+			}
+			return &SVal{Term{"(let ((" + nm + " " + v.T.S + ")) " + b.T.S + ")", b.T.Sort}, b.Ty}, nil
+		}
+		ne.vars[n.Name] = v
 		return ne.expr(n.Body)
 	}
 	return nil, e.errf("unsupported expression %T", x)
@@ -577,7 +599,7 @@ func (e *Env) index(n *EIndex) (*SVal, error) {
 }
 
 var builtinSpecFuncs = map[string]bool{"len": true, "cap": true, "old": true, "be16": true, "be32": true, "be64": true, "bytesEq": true,
-	"crc32c": true, "dom": true, "isnil": true, "arrOf": true, "offOf": true, "sameArr": true, "typeIs": true, "allocated": true, "fresh": true, "update": true, "str": true, "boxed": true, "unbox": true, "isa": true, "apply": true}
+	"crc32c": true, "dom": true, "isnil": true, "arrOf": true, "offOf": true, "sameArr": true, "typeIs": true, "allocated": true, "fresh": true, "update": true, "str": true, "boxed": true, "unbox": true, "isa": true, "apply": true, "itoa": true}
 
 func (e *Env) call(n *ECall) (*SVal, error) {
 	c := e.c
@@ -674,7 +696,8 @@ func (e *Env) call(n *ECall) (*SVal, error) {
 			return nil, err
 		}
 		nb := map[string]int{"be16": 2, "be32": 4, "be64": 8}[id.Name]
-		return &SVal{e.t.bigEndian(e.st, s.T, i.T, nb), goT(types.Typ[types.Uint64])}, nil
+		rt := map[int]types.Type{2: types.Typ[types.Uint16], 4: types.Typ[types.Uint32], 8: types.Typ[types.Uint64]}[nb]
+		return &SVal{e.t.bigEndian(e.st, s.T, i.T, nb), goT(rt)}, nil
 	case "bytesEq":
 		a, err := e.expr(n.Args[0])
 		if err != nil {
@@ -816,6 +839,13 @@ func (e *Env) call(n *ECall) (*SVal, error) {
 		rs := c.sortOf(sig.Results().At(0).Type())
 		fn := c.declFun(applyName(ss[1:], rs), ss, rs)
 		return &SVal{app(fn, rs, ats...), goT(sig.Results().At(0).Type())}, nil
+	case "itoa":
+		// itoa(n): decimal rendering of an integer
+		a, err := e.expr(n.Args[0])
+		if err != nil {
+			return nil, err
+		}
+		return &SVal{ite(lt(a.T, tInt(0)), app("str.++", SStr, smtString("-"), app("str.from_int", SStr, sub(tInt(0), a.T))), app("str.from_int", SStr, a.T)), tyString}, nil
 	case "str":
 		// str(b): the string made of the bytes of slice b
 		a, err := e.expr(n.Args[0])
@@ -1016,6 +1046,8 @@ func (e *Env) ownParams() []*ssa.Parameter {
 	}
 	return e.t.fn.Params
 }
+
+var letSeq int
 
 func addBound(m map[string]bool, n string) map[string]bool {
 	out := map[string]bool{n: true}
